@@ -524,10 +524,10 @@ impl<'de, R: Read<'de>> Parser<R> {
                         self.expect_ident(b"8")?;
                         Token::ByteVecOpen(b')')
                     }
-                    Some(b'b') => Token::Number(self.parse_radix_literal(2)?),
-                    Some(b'o') => Token::Number(self.parse_radix_literal(8)?),
-                    Some(b'd') => Token::Number(self.parse_radix_literal(10)?),
-                    Some(b'x') => Token::Number(self.parse_radix_literal(16)?),
+                    Some(b'b') => self.parse_number_token(2, None)?,
+                    Some(b'o') => self.parse_number_token(8, None)?,
+                    Some(b'd') => self.parse_number_token(10, None)?,
+                    Some(b'x') => self.parse_number_token(16, None)?,
                     Some(b'\\') => Token::Char(self.read.parse_r6rs_char(&mut self.scratch)?),
                     Some(b'%') if self.options.racket_hash_percent_symbols => {
                         Token::Symbol(self.parse_symbol_suffix("#%")?.into())
@@ -542,7 +542,7 @@ impl<'de, R: Read<'de>> Parser<R> {
                 if next == 0 || is_delimiter(next) || is_sign_subsequent(next) {
                     Token::Symbol(self.parse_symbol_suffix("-")?.into())
                 } else {
-                    Token::Number(self.parse_num_literal(10, false)?)
+                    self.parse_number_token(10, Some(false))?
                 }
             }
             b'+' => {
@@ -551,7 +551,7 @@ impl<'de, R: Read<'de>> Parser<R> {
                 if next == 0 || is_delimiter(next) || is_sign_subsequent(next) {
                     Token::Symbol(self.parse_symbol_suffix("+")?.into())
                 } else {
-                    Token::Number(self.parse_num_literal(10, true)?)
+                    self.parse_number_token(10, Some(true))?
                 }
             }
             b'0'..=b'9' => {
@@ -564,7 +564,7 @@ impl<'de, R: Read<'de>> Parser<R> {
                         _ => Token::Symbol(symbol.into()),
                     }
                 } else {
-                    Token::Number(self.parse_num_literal(10, true)?)
+                    self.parse_number_token(10, Some(true))?
                 }
             }
             b'"' => {
@@ -843,6 +843,21 @@ impl<'de, R: Read<'de>> Parser<R> {
             }
         };
         Ok(Some(syntax))
+    }
+
+    /// Parses a numeric literal that forms a token of its own: with the given
+    /// sign if the sign has been consumed already, otherwise including an
+    /// optional sign. The literal must extend to the end of the token, i.e. be
+    /// followed by a delimiter or the end of input.
+    fn parse_number_token(&mut self, radix: u8, sign: Option<bool>) -> Result<Token> {
+        let number = match sign {
+            Some(pos) => self.parse_num_literal(radix, pos)?,
+            None => self.parse_radix_literal(radix)?,
+        };
+        match self.peek()? {
+            Some(c) if !is_delimiter(c) => Err(self.peek_error(ErrorCode::InvalidNumber)),
+            _ => Ok(Token::Number(number)),
+        }
     }
 
     fn parse_symbol(&mut self) -> Result<String> {
